@@ -34,9 +34,19 @@ package consensus
 //@ func (*prepareResponse).DecodeBinary
 //@ requires p != nil && io.validR(r)
 //@ opt frame off
+// a ChangeView carries the rejected hashes exactly for the two transaction-related reasons (0x03,
+// 0x04): the encoder writes and the decoder reads the list under the same condition
 //@ func (*changeView).DecodeBinary
 //@ requires c != nil && io.validR(r)
 //@ opt frame off
+//@ call ReadArray requires[reasons] c.reason == 3 || c.reason == 4
+//@ ensures[read] ncalls(ReadArray) == ite(c.reason == 3 || c.reason == 4, 1, 0)
+//@ func (*changeView).EncodeBinary
+//@ may-panic
+//@ opt frame off
+//@ requires c != nil && io.validW(w)
+//@ call WriteArray requires[reasons] c.reason == 3 || c.reason == 4
+//@ ensures[written] ncalls(WriteArray) == ite(old(c.reason == 3 || c.reason == 4), 1, 0)
 //@ func (*changeViewCompact).DecodeBinary
 //@ requires p != nil && io.validR(r)
 //@ opt frame off
